@@ -190,7 +190,7 @@ SIGNAMES = {int(v): k for k, v in signal.__dict__.items() if k.startswith("SIG")
 
 
 def run_shards(exe, outdir0, nshards, cases, seed, thorough=False, env_fn=None, timeout=900, extra_args=(),
-               prop="C00", max_restarts=6, budget=None, only_shard=None, stack_mb=None):
+               prop="C00", max_restarts=6, budget=None, only_shard=None, stack_mb=None, first_args=()):
     """Run the harness in nshards processes; restart a shard after the case that killed it."""
     os.makedirs(outdir0, exist_ok=True)
     results = [ShardResult(i) for i in range(nshards)]
@@ -208,7 +208,7 @@ def run_shards(exe, outdir0, nshards, cases, seed, thorough=False, env_fn=None, 
         os.makedirs(outdir, exist_ok=True)
         env = env_fn(outdir) if env_fn else dict(os.environ)
         while True:
-            args = [exe, "--out", outdir, "--seed", str(seed), "--shard", "%d/%d" % (i, nshards),
+            args = [exe] + list(first_args) + ["--out", outdir, "--seed", str(seed), "--shard", "%d/%d" % (i, nshards),
                     "--cases", str(cases)] + list(extra_args)
             if thorough:
                 args.append("--thorough")
